@@ -619,7 +619,11 @@ func (m *Matcher) run(st state) {
 				st.r = rc.advance()
 				continue
 			}
-			m.fail("mismatch", w, r, wfr, rfr, "reader repeats a section here but the writer continues with %s", describe(m.X, w))
+			if wp, ok := w.(*Prim); ok && kindGroup[wp.Kind] == "raw" {
+				m.fail("undecided", w, r, wfr, rfr, "reader repeats a section here where the writer emits a pre-encoded buffer raw (%s): the matcher cannot see the buffer's layout", describe(m.X, w))
+			} else {
+				m.fail("mismatch", w, r, wfr, rfr, "reader repeats a section here but the writer continues with %s", describe(m.X, w))
+			}
 			return
 		}
 		// ---- markers
@@ -1044,6 +1048,11 @@ func (m *Matcher) matchPrim(st *state, wp, rp *Prim, wc, rc *cont) bool {
 			st.r = nc
 			return true
 		}
+	}
+	if kindGroup[wk] == "raw" && (strings.HasPrefix(wlabel, "local:") || wlabel == "" || strings.Contains(wlabel, "(")) {
+		// a buffer encoded elsewhere and written raw: its content is not visible at this position
+		m.fail("undecided", wp, rp, wfr, rfr, "writer emits a pre-encoded buffer%s raw where the reader reads %s%s: the matcher cannot see the buffer's layout (not a sub-writer of this function, not a single bytes-producing call)", lbl(wlabel), rk, lbl(rlabel))
+		return false
 	}
 	m.fail("mismatch", wp, rp, wfr, rfr, "writer emits %s%s but the reader reads %s%s at this position", wk, lbl(wlabel), rk, lbl(rlabel))
 	return false
